@@ -46,6 +46,18 @@ def storeChar (inp : Bytes) (ind : Nat) (racc : Bytes) : Except LexErr (Nat × B
   | none => .error .inChar
   | some (c, n) => .ok (if c == 10 then 0 else ind + 1, (inp.take n).reverse ++ racc, inp.drop n)
 
+/-- the strings `buf_store_char` accepts character by character: well-formed UTF-8 (as `ly_getutf8` sees it) of
+    characters that pass `is_yangutf8char` — what a string argument of a parsed module can contain -/
+def validText : (fuel : Nat) → Bytes → Bool
+  | 0, _ => false
+  | _, [] => true
+  | f + 1, c :: cs =>
+    match charAt (c :: cs) with
+    | some (_, n) => validText f ((c :: cs).drop n)
+    | none => false
+
+def isYangText (s : Bytes) : Bool := validText (s.length + 1) s
+
 /-- `skip_comment`; `cm`: 1 line comment, 2 block comment, 3 block comment after `*`.  Returns the new
     `ctx->indent` and the rest of the input. -/
 def skipComment : (cm : Nat) → (ind : Nat) → Bytes → Except LexErr (Nat × Bytes)
@@ -178,7 +190,7 @@ structure ArgRes where
   flags : Nat
   ind : Nat
   rest : Bytes
-  deriving Repr, BEq
+  deriving Repr, BEq, DecidableEq
 
 def argDone (racc : Bytes) (ind : Nat) (rest : Bytes) : Except LexErr ArgRes :=
   .ok { word := if racc.isEmpty then none else some racc.reverse, flags := 0, ind := ind, rest := rest }
